@@ -20,18 +20,34 @@ import (
 //	    a nested direct container; the inner value is a string if R < 0 and a
 //	    reference to object R otherwise
 //	'm' the string inside a nested container (only used by the oracle)
+//	'N' a nil pdf.Array, 'M' a nil pdf.Dict (typed nil Go values: they cannot
+//	    come out of a file, only a caller can hand them to Copy; direct values
+//	    of the 'V' call only)
 type Item struct {
 	K byte
 	R int
 }
 
-// innerStr as R of a nested container: the inner value is a string.
-const innerStr = -1
+// R of a nested container whose inner value is not a reference: a string, or
+// (direct values of the 'V' call only) a Go nil, a nil pdf.Array, a nil pdf.Dict.
+const (
+	innerStr     = -1
+	innerNull    = -2
+	innerNilArr  = -3
+	innerNilDict = -4
+)
 
 // inner returns the item inside a nested direct container.
 func (it Item) inner() Item {
-	if it.R < 0 {
+	switch it.R {
+	case innerStr:
 		return Item{K: 'm'}
+	case innerNull:
+		return Item{K: 'n'}
+	case innerNilArr:
+		return Item{K: 'N'}
+	case innerNilDict:
+		return Item{K: 'M'}
 	}
 	return Item{'r', it.R}
 }
@@ -62,6 +78,7 @@ func (it Item) refLike() bool { return it.K == 'r' || it.K == 'g' }
 //	'A' array of It        'D' dictionary, keys /A /B, values It
 //	'S' stream, variant V, optional entry /K It[0]
 //	'r' bare reference It[0] (a link of a reference chain)
+//	'n' Go nil, 'N' nil pdf.Array, 'M' nil pdf.Dict (direct values of the 'V' call only)
 type Obj struct {
 	K  byte
 	V  int
@@ -78,10 +95,102 @@ const (
 	stmIndLength   = 2 // /Length n 0 R, 1500 bytes (unbuffered path of the writer)
 	stmIndFilter   = 3 // /Filter n 0 R, /DecodeParms m 0 R (Flate + PNG-up predictor)
 	stmIndFilterAr = 4 // /Filter [n 0 R], /DecodeParms [m 0 R]
-	numStmVariants = 5
+	stmSpellBase   = 5 // variants 5... are the spellings of short filter chains, see spellings
 )
 
-var stmNames = []string{"plain", "flate", "indirect-length", "indirect-filter-parms", "array-of-indirect-filter-parms"}
+// spelling describes how a short filter chain is written in the stream
+// dictionary. The family: every one-filter chain X in {FlateDecode,
+// ASCIIHexDecode, Crypt (Identity)} written as the bare name /Filter /X and as
+// the one-element array /Filter [/X], each with /DecodeParms absent, a
+// dictionary, and a one-element array; and Crypt first in a two-element array
+// [/Crypt /Y], Y in {FlateDecode, ASCIIHexDecode}, with /DecodeParms absent and
+// a two-element array.
+type spelling struct {
+	chain string // one letter per filter: F FlateDecode, H ASCIIHexDecode, C Crypt
+	array bool   // /Filter is an array
+	parms byte   // '-' absent, 'd' a dictionary, 'a' an array with one entry per filter
+}
+
+var spellings = func() []spelling {
+	var out []spelling
+	for _, x := range []string{"F", "H", "C"} {
+		for _, arr := range []bool{false, true} {
+			for _, p := range []byte{'-', 'd', 'a'} {
+				out = append(out, spelling{x, arr, p})
+			}
+		}
+	}
+	for _, y := range []string{"CF", "CH"} {
+		for _, p := range []byte{'-', 'a'} {
+			out = append(out, spelling{y, true, p})
+		}
+	}
+	return out
+}()
+
+var numStmVariants = stmSpellBase + len(spellings)
+
+var spellVariants = func() []int {
+	var out []int
+	for v := stmSpellBase; v < numStmVariants; v++ {
+		out = append(out, v)
+	}
+	return out
+}()
+
+var filterLongNames = map[byte]string{'F': "FlateDecode", 'H': "ASCIIHexDecode", 'C': "Crypt"}
+
+func (sp spelling) String() string {
+	var names []string
+	for i := 0; i < len(sp.chain); i++ {
+		names = append(names, filterLongNames[sp.chain[i]])
+	}
+	f := "name:" + names[0]
+	if sp.array {
+		f = "array:" + strings.Join(names, "+")
+	}
+	return f + ";parms:" + map[byte]string{'-': "absent", 'd': "dict", 'a': "array"}[sp.parms]
+}
+
+// spellingOf returns the spelling of a stream variant (ok = false for the
+// variants 0..4).
+func spellingOf(v int) (spelling, bool) {
+	if v < stmSpellBase || v >= numStmVariants {
+		return spelling{}, false
+	}
+	return spellings[v-stmSpellBase], true
+}
+
+// stmDecodable: the stream dictionary of the variant describes a filter chain
+// that can be decoded. A bare filter name with an array of parameters, and an
+// array of filters with a bare parameter dictionary, do not fit together: the
+// library refuses to decode such a stream, so "streams decode to the same
+// bytes" says nothing about it (the rest of the object is still compared).
+func stmDecodable(v int) bool {
+	sp, ok := spellingOf(v)
+	if !ok {
+		return true
+	}
+	return !(sp.array && sp.parms == 'd') && !(!sp.array && sp.parms == 'a')
+}
+
+// stmCryptFirst: the filter chain of the variant begins with /Crypt (Identity):
+// the bytes of the stream are stored unencrypted in an encrypted file.
+func stmCryptFirst(v int) bool {
+	sp, ok := spellingOf(v)
+	return ok && sp.chain[0] == 'C'
+}
+
+var stmNames = func() []string {
+	out := []string{"plain", "flate", "indirect-length", "indirect-filter-parms", "array-of-indirect-filter-parms"}
+	for _, sp := range spellings {
+		out = append(out, sp.String())
+	}
+	return out
+}()
+
+// variantChars: the variant of a stream in the case syntax ("S0<>", "Sk<s>").
+const variantChars = "0123456789abcdefghijklmnopqrstuvwxyz"
 
 func (it Item) String() string {
 	switch it.K {
@@ -99,10 +208,15 @@ func (it Item) String() string {
 	return string(rune(it.K))
 }
 
+// directOnly: the item can only occur in a direct value built by the caller.
+func (it Item) directOnly() bool {
+	return it.K == 'N' || it.K == 'M' || (it.K == 'A' || it.K == 'T') && it.R < innerStr
+}
+
 func (o Obj) String() string {
 	var b strings.Builder
 	switch o.K {
-	case 'i', 's':
+	case 'i', 's', 'n', 'N', 'M':
 		b.WriteByte(o.K)
 	case 'A':
 		b.WriteByte('[')
@@ -117,7 +231,7 @@ func (o Obj) String() string {
 		}
 		b.WriteByte('>')
 	case 'S':
-		fmt.Fprintf(&b, "S%d<", o.V)
+		fmt.Fprintf(&b, "S%c<", variantChars[o.V])
 		for _, it := range o.It {
 			b.WriteString(it.String())
 		}
@@ -147,7 +261,7 @@ func parseItems(s string) ([]Item, error) {
 		switch {
 		case c >= '0' && c <= '9':
 			out = append(out, Item{'r', int(c - '0')})
-		case strings.IndexByte("isnadxf", c) >= 0:
+		case strings.IndexByte("isnadxfNM", c) >= 0:
 			out = append(out, Item{K: c})
 		case c == '~' && i+1 < len(s) && s[i+1] >= '0' && s[i+1] <= '9':
 			out = append(out, Item{'g', int(s[i+1] - '0')})
@@ -164,6 +278,12 @@ func parseItems(s string) ([]Item, error) {
 			switch in := s[i+1]; {
 			case in == 's':
 				out = append(out, Item{k, innerStr})
+			case in == 'n':
+				out = append(out, Item{k, innerNull})
+			case in == 'N':
+				out = append(out, Item{k, innerNilArr})
+			case in == 'M':
+				out = append(out, Item{k, innerNilDict})
 			case in >= '0' && in <= '9':
 				out = append(out, Item{k, int(in - '0')})
 			default:
@@ -177,14 +297,15 @@ func parseItems(s string) ([]Item, error) {
 	return out, nil
 }
 
-// ParseGraph is the inverse of Graph.String.
-func ParseGraph(s string) (Graph, error) {
-	var g Graph
-	for _, f := range strings.Fields(s) {
+// parseObj is the inverse of Obj.String.
+func parseObj(f string) (Obj, error) {
+	{
 		var o Obj
 		var err error
 		switch {
-		case f == "i" || f == "s":
+		case f == "":
+			return o, fmt.Errorf("empty object")
+		case f == "i" || f == "s" || f == "n" || f == "N" || f == "M":
 			o.K = f[0]
 		case f[0] == '[' && f[len(f)-1] == ']':
 			o.K = 'A'
@@ -194,9 +315,9 @@ func ParseGraph(s string) (Graph, error) {
 			o.It, err = parseItems(f[1 : len(f)-1])
 		case f[0] == 'S' && len(f) >= 4 && f[2] == '<' && f[len(f)-1] == '>':
 			o.K = 'S'
-			o.V = int(f[1] - '0')
+			o.V = strings.IndexByte(variantChars, f[1])
 			if o.V < 0 || o.V >= numStmVariants {
-				return nil, fmt.Errorf("bad stream variant in %q", f)
+				return o, fmt.Errorf("bad stream variant in %q", f)
 			}
 			o.It, err = parseItems(f[3 : len(f)-1])
 		case f[0] == '^' && len(f) >= 2:
@@ -206,17 +327,32 @@ func ParseGraph(s string) (Graph, error) {
 				err = fmt.Errorf("bad object %q", f)
 			}
 		default:
-			return nil, fmt.Errorf("bad object %q", f)
+			return o, fmt.Errorf("bad object %q", f)
 		}
+		return o, err
+	}
+}
+
+// ParseGraph is the inverse of Graph.String.
+func ParseGraph(s string) (Graph, error) {
+	var g Graph
+	for _, f := range strings.Fields(s) {
+		o, err := parseObj(f)
 		if err != nil {
 			return nil, err
 		}
 		g = append(g, o)
 	}
 	for _, o := range g {
+		if strings.IndexByte("nNM", o.K) >= 0 {
+			return nil, fmt.Errorf("object kind %c only exists as a direct value", o.K)
+		}
 		for _, it := range o.It {
 			if j, ok := it.mention(); ok && j >= len(g) {
 				return nil, fmt.Errorf("reference to object %d in a graph of %d", j, len(g))
+			}
+			if it.directOnly() {
+				return nil, fmt.Errorf("item %s only exists in a direct value", it)
 			}
 		}
 		if o.K == 'S' && len(o.It) > 1 {
@@ -318,6 +454,15 @@ func (g Graph) hasRefLoop(set int) bool {
 	return false
 }
 
+func (g Graph) hasUndecodableStream(set int) bool {
+	for j := range g {
+		if set&(1<<j) != 0 && g[j].K == 'S' && !stmDecodable(g[j].V) {
+			return true
+		}
+	}
+	return false
+}
+
 // weaklyConnected reports whether the graph is connected when edges are
 // read without direction. A stale reference counts as an edge here (it is no
 // edge of the source graph, but it ties the object it names into the case: a
@@ -393,6 +538,11 @@ var lean = alphabet{name: "lean", items: "ix", scalars: true, arr2: true, dict1:
 // mid is lean plus the value kinds whose translation is special.
 var mid = alphabet{name: "mid", items: "inax", scalars: true, empties: true, arr2: true, dict1: true, dict2: false,
 	variants: []int{0, 3}, stmBare: true, bareDead: true}
+
+// spell is the alphabet of the filter spelling family: streams of every
+// spelling variant (and the plain and /Filter /FlateDecode variants 0 and 1 as
+// controls), bare, with a string entry, and with a reference entry.
+var spell = alphabet{name: "filter-spellings", items: "s", variants: append([]int{stmPlain, stmFlate}, spellVariants...), stmBare: true}
 
 // leanStale, midStale: the same with stale references.
 var leanStale = withStale(lean)
@@ -509,6 +659,50 @@ func (a alphabet) kinds(n int) []Obj {
 		}
 	}
 	return out
+}
+
+// directValues lists the hand-made direct values of the 'V' call for a graph
+// of n objects: values only a caller can build, because they contain Go nils
+// that a Reader never returns: an entry or element that is nil ('n'), a nil
+// pdf.Array ('N'), a nil pdf.Dict ('M'). Arrays and dictionaries with one
+// item out of {n N M i, reference to an object of the graph, [n] [N] [M] <n>
+// <N> <M> (the nils one level down)}, with two items out of {n N M i,
+// references} in both orders, and the three bare values nil, pdf.Array(nil),
+// pdf.Dict(nil).
+func directValues(n int) []Obj {
+	its := []Item{{K: 'n'}, {K: 'N'}, {K: 'M'}, {K: 'i'}}
+	for j := 0; j < n; j++ {
+		its = append(its, Item{'r', j})
+	}
+	single := append([]Item{}, its...)
+	for _, k := range []byte{'A', 'T'} {
+		for _, in := range []int{innerNull, innerNilArr, innerNilDict} {
+			single = append(single, Item{k, in})
+		}
+	}
+	out := []Obj{{K: 'n'}, {K: 'N'}, {K: 'M'}}
+	for _, k := range []byte{'A', 'D'} {
+		for _, x := range single {
+			out = append(out, Obj{K: k, It: []Item{x}})
+		}
+		for _, x := range its {
+			for _, y := range its {
+				out = append(out, Obj{K: k, It: []Item{x, y}})
+			}
+		}
+	}
+	return out
+}
+
+// hasNilDictEntry: the direct value contains a dictionary entry whose Go
+// value is nil (at the top or one level down).
+func (o Obj) hasNilDictEntry() bool {
+	for _, it := range o.It {
+		if o.K == 'D' && it.K == 'n' || it.K == 'T' && it.R == innerNull {
+			return true
+		}
+	}
+	return false
 }
 
 // objKey is a total order key of an object under a relabelling.
